@@ -151,4 +151,14 @@ theorem uuid_text_injective (u v : List UInt8) (hu : u.length = 24) (hv : v.leng
 example : Model.C20.uuidToString ((List.range 24).map UInt8.ofNat) ≠ Model.C20.uuidToString (1 :: (List.range 23).map fun k => UInt8.ofNat (k + 1)) := by
   decide
 
+/-- Request ids never repeat within 2^64 requests: `uuid.NewUUID` renders the generator's counter (first eight
+bytes, little endian) and the constant rest of its seed, and two different counter values give two different
+texts. -/
+theorem request_ids_distinct (seed : List UInt8) (hs : seed.length = 24) (x y : Nat)
+    (hx : x < 18446744073709551616) (hy : y < 18446744073709551616) (hne : x ≠ y) :
+    newUUID seed x ≠ newUUID seed y := Lemmas.C20Serve.newUUID_distinct seed hs x y hx hy hne
+
+example : newUUID ((List.range 24).map UInt8.ofNat) 0x0807060504030201 = .ok "01020304-0506-0708-0809-0a0b0c0d0e0f".toList := by
+  decide +kernel
+
 end Fabio.Props.C20Serve
